@@ -293,6 +293,12 @@ def cases(tier, seed):
         yield {"label": "lost-wakeup-sweep", "seed": seed * 79 + i, "max_bytes": 750 * 1024, "max_ops": 250, "window": 0.0, "latency": 0.002,
                "plans": [[(10, True, 0)], [(10, rng.random() < 0.7, 0.0), (5, True, 0)]], "fail_at": 0, "perturb": "slow-consumer", "hold_put": True,
                "release_after_ms": (i % 40) * 0.75, "budget": 8}
+    # the failing call carries nothing but empty checkpoints (the timer thread's refresh calls): the batch has no update at all
+    for i in range(8 if tier == "quick" else 40):
+        np_ = 1 + i % 3
+        plans = [[(None, True, 0)] + ([(10, i % 2 == 0, 0.0)] if i % 4 >= 2 else []) + [(5, True, 0)] for _ in range(np_)]
+        yield {"label": "batcher", "seed": seed * 83 + i, "max_bytes": 750 * 1024, "max_ops": 250, "window": [0.0, 0.005][i % 2], "latency": 0.002,
+               "plans": plans, "fail_at": 0, "paged": 0, "fail_page_at": None, "perturb": "none", "glyphs": ["p"]}
     for i in range(n):
         np_ = rng.choice([1, 1, 2, 3, 4, 8])
         max_bytes = rng.choice([400, 1000, 5000, 750 * 1024])
